@@ -1246,8 +1246,10 @@ def explore_c04(ctx, res, replay_ops=None):
                 "non-trivial = successful marshal")
 
 
-def _c05_item(res, op, ty, ps, arg, it, errs, where=""):
-    """judge one marshal-then-unmarshal answer (tokens `it`) for the value `arg` of type `ty`"""
+def _c05_item(res, op, ty, ps, arg, it, errs, where="", dom=True, mo=()):
+    """judge one marshal-then-unmarshal answer (tokens `it`) for the value `arg` of type `ty`.
+    dom: the Lean driver says (type, parameters) is in the domain of the round-trip law (Spec/C05Domain.lean: the shapes
+    Props.C05.C05_domain covers, which include every schema type); mo: the model's answer for the same item."""
     if it[0] in ("panic", "timeout", "crash"):
         res.violation("oracle", "C05: marshal/unmarshal panicked" + where, [op[:20000], "# impl: " + " ".join(it)[:200]])
         return
@@ -1257,6 +1259,16 @@ def _c05_item(res, op, ty, ps, arg, it, errs, where=""):
         res.dist["marshal-error"] += 1
         errs.append((op, ty, ps, arg, where))
         return
+    if not dom and not (len(mo) >= 4 and mo[0] == "ok" and mo[2] == "ok" and mo[3] == arg):
+        # outside the law's domain (a shape whose members / alternatives the decoder cannot tell apart by tag number: no schema
+        # type is one) and the decoder model does not bring this value back either: not judged; model and code are still compared
+        res.outside_domain["generated type outside the round-trip domain (untagged CHOICE member, SET / absent OPTIONAL member and "
+                           "a later member with the same tag number, EXPLICIT member): value does not round-trip in the model"] += 1
+        if len(it) > 4 and it[2] in ("ok", "err") and it[-1] in ("moved", "unstable"):
+            res.violation("oracle", "C05: the marshalled octets changed after marshal had returned them (%s)%s" % (" ".join(it[4:]), where),
+                          [op[:20000], "# impl: " + " ".join(it)[:3000]])
+        return
+    res.dist["round trip judged: " + ("in the proved domain" if dom else "outside it, the model round-trips the value")] += 1
     res.traces_validated += 1
     res.nontrivial.add(op)
     if len(it) < 4 or it[2] != "ok":
@@ -1273,12 +1285,22 @@ def _c05_item(res, op, ty, ps, arg, it, errs, where=""):
 def explore_c05(ctx, res, replay_ops=None):
     r = _ber_run(ctx, res, replay_ops, n_for(ctx, 300, 3000))
     errs = []
+    # which (type, parameters) are in the domain of the round-trip law is decided by the Lean driver
+    pairs = set()
+    for op in r.ops:
+        t = op.split(" ")
+        if t[1] == "R":
+            pairs.add((t[2], t[3]))
+        elif t[1] == "H":
+            pairs.update((ty, ps) for (ty, ps, _) in _ber_items(t))
+    pairs = sorted(pairs)
+    dom = dict(zip(pairs, (a == "in" for a in core.driver_run(["ber dom %s %s" % pr for pr in pairs])))) if pairs else {}
     for i, (op, im) in enumerate(zip(r.ops, r.impl)):
         t = op.split(" ")
         if t[1] == "R":
             res.evaluations += 1
             res.dist[_ty_class(t[2])] += 1
-            _c05_item(res, op, t[2], t[3], t[4] if len(t) > 4 else "", im.split(" "), errs)
+            _c05_item(res, op, t[2], t[3], t[4] if len(t) > 4 else "", im.split(" "), errs, dom=dom[(t[2], t[3])], mo=r.model[i].split(" "))
         elif t[1] == "H":
             # a history of marshal calls: every result is unmarshalled only after all calls have returned and the
             # arguments have been overwritten
@@ -1293,8 +1315,10 @@ def explore_c05(ctx, res, replay_ops=None):
             if len(answers) != len(items):
                 res.violation("oracle", "C05: a history of %d marshal calls gave %d answers" % (len(items), len(answers)), [op[:20000], "# impl: " + im[:3000]])
                 continue
+            mos = r.model[i].split(" | ")
             for k, ((ty, ps, arg), a) in enumerate(zip(items, answers)):
-                _c05_item(res, op, ty, ps, arg, a.split(" "), errs, " (call %d of %d of a history, mode %s)" % (k + 1, len(items), t[2]))
+                _c05_item(res, op, ty, ps, arg, a.split(" "), errs, " (call %d of %d of a history, mode %s)" % (k + 1, len(items), t[2]),
+                          dom=dom[(ty, ps)], mo=mos[k].split(" ") if k < len(mos) else ())
     # marshal errors: the value must be one the independent encoder has no encoding for either
     if errs:
         out = core.driver_run(["ber spec %s %s %s" % (ty, ps, arg) for (_, ty, ps, arg, _) in errs])
@@ -1309,7 +1333,9 @@ def explore_c05(ctx, res, replay_ops=None):
                 "histories of 2-6 marshal calls (same value repeated, same type, mixed types; lengths falling, rising, equal) in one goroutine "
                 "or one goroutine per value: every returned slice is kept, the arguments' buffers are overwritten, and only then every slice is "
                 "compared with its copy and unmarshalled; a marshal error must be matched by the reference encoder having no encoding; "
-                "non-trivial = value that marshals")
+                "the round trip is judged for every (type, parameters) the Lean driver places in the domain of Props.C05.C05_domain (all "
+                "schema types, primitives under any tagging) and, outside it, for every value the decoder model brings back; the rest is "
+                "counted under outside_property_domain (model and code are still compared); non-trivial = value that marshals")
 
 
 def explore_c16(ctx, res, replay_ops=None):
